@@ -46,6 +46,9 @@ pub fn check_isolation(h: &History) -> CaseResult {
     let mut full = h.clone();
     full.ops.retain(|o| matches!(o, Op::Predict { .. } | Op::Skip { .. } | Op::Wasted | Op::SetAutoWaste(_) | Op::ClearWasted));
     let inter = run_monitored(&full, flags)?;
+    // batch trackers: the same history once more with the calls of different scenes that follow each
+    // other submitted as one batch (scenes then share the batch, the voting workers and their buffers)
+    let grouped = if h.cfg.kind.is_batch() { Some(run_monitored(&full, Flags { c01: true, c03: false, c13: false, margins: false, group_batches: true })?) } else { None };
     let scenes: Vec<u64> = {
         let mut v: Vec<u64> = full.ops.iter().filter_map(scene_of).collect();
         v.sort();
@@ -81,6 +84,11 @@ pub fn check_isolation(h: &History) -> CaseResult {
         compared_calls += cut;
         cut_calls += a.len() - cut;
         same_up_to_ids(&a[..cut], &b[..cut], &format!("scene {}", s)).map_err(|f| Fail::new(format!("isolation-{}", f.signature), f.msg))?;
+        if let Some(g) = &grouped {
+            let g: Vec<Vec<Rec>> = g.records.iter().filter(|(k, _)| scene_of(&full.ops[*k]) == Some(*s)).map(|(_, r)| r.clone()).collect();
+            ensure!(g.len() == b.len(), "isolation-call-count", "scene {}: {} calls in the shared-batch run, {} in the projection", s, g.len(), b.len());
+            same_up_to_ids(&g[..cut], &b[..cut], &format!("scene {} (sharing batches with other scenes)", s)).map_err(|f| Fail::new(format!("isolation-shared-batch-{}", f.signature), f.msg))?;
+        }
         if a[..cut].iter().flatten().any(|r| r.length > 1) {
             interleaved_scenes += 1;
         } else {
@@ -92,11 +100,12 @@ pub fn check_isolation(h: &History) -> CaseResult {
         .label(h.cfg.kind.name())
         .label_if(cut_calls > 0, "cut_at_fragile_call")
         .label_if(compared_calls == 0, "nothing_compared")
+        .label_if(grouped.is_some(), "shared_batches")
         .label_if(scenes.len() >= 2, "multi_scene"))
 }
 
 pub fn run(env: &Env, rep: &Report) {
-    rep.set_rule("multi-scene histories in which every scene replays the same object trajectories in the same image region (own clock per scene), random interleaving of predict / skip calls, all four trackers, IoU and Mahalanobis, tie-free by construction (no duplicate detections, distinct appearance per detection). Oracle: for every scene the record sequence of the interleaved run equals that of the projection of the history onto the scene, bit-equal in boxes / epochs / lengths / voting types, under one incrementally built bijection of track ids; plus 'never attached to a track of another scene'. Comparison is cut at the first call whose decision margin (shadow) is below 1e-4. Non-trivial: >= 2 scenes, each with >= 1 continuation inside the compared prefix; distinct = distinct serialized history");
+    rep.set_rule("multi-scene histories in which every scene replays the same object trajectories in the same image region (own clock per scene), random interleaving of predict / skip calls, all four trackers (batch trackers additionally with the consecutive calls of different scenes sharing one batch), IoU and Mahalanobis, tie-free by construction (no duplicate detections, distinct appearance per detection). Oracle: for every scene the record sequence of the interleaved run equals that of the projection of the history onto the scene, bit-equal in boxes / epochs / lengths / voting types, under one incrementally built bijection of track ids; plus 'never attached to a track of another scene'. Comparison is cut at the first call whose decision margin (shadow) is below 1e-4. Non-trivial: >= 2 scenes, each with >= 1 continuation inside the compared prefix; distinct = distinct serialized history");
     rep.assume("decision margins come from the f64 shadow of each call (props/shadow.rs); a call with a margin below 1e-4 may legitimately be decided differently in two runs");
     let pool = IsoPool::new(&env.prop, "isolation", std::time::Duration::from_secs(120));
     let n = env.tier.pick(2_500, 30_000);
